@@ -40,6 +40,37 @@ EXC_CODES = {"KeyError": 1, "RuntimeError": 2, "ValueError": 3, "TypeError": 4, 
              "IndexError": 6, "OSError": 7, "FileNotFoundError": 7, "Abandoned": 8}
 
 
+def _attrs(obj):
+    """(name, value) of the instance attributes, whatever they are called"""
+    try:
+        return list(vars(obj).items())
+    except TypeError:
+        out = []
+        for k in dir(obj):
+            if not k.startswith("__"):
+                try:
+                    out.append((k, getattr(obj, k)))
+                except Exception:      # noqa
+                    pass
+        return out
+
+
+def lock_of(obj):
+    """the lock of a component, found by TYPE (the module's threading is the scheduler's shim, so the lock is a
+    CoopLock), not by its private name"""
+    for _, v in _attrs(obj):
+        if isinstance(v, sched.CoopLock):
+            return v
+    return None
+
+
+def attr_name_where(obj, pred, what):
+    for k, v in _attrs(obj):
+        if pred(v):
+            return k
+    raise LookupError(f"{what}: no such attribute on {type(obj).__name__}")
+
+
 def exc_result(e):
     return [9, EXC_CODES.get(type(e).__name__, 0)]
 
@@ -343,7 +374,7 @@ class _GuardedBacking:
         self._rec = rec
 
     def _chk(self):
-        lk = getattr(self._o, "_lock", None)
+        lk = lock_of(self._o)
         if not (isinstance(lk, sched.CoopLock) and lk.owner is not None):
             self._rec.guard_violations += 1
         if threading.get_ident() in _FAIL_FOR:     # the fault is injected into the injecting thread's call only
@@ -384,12 +415,14 @@ class CacheScenario(Scenario):
 
     def build(self):
         self.patch.set(VC, "threading", sched.shim())
-        self.cache = VC.SynchronizedCache(VC.LRUCache(cache_size=self.case["cap"],
-                                                      mark_on_update=bool(self.case.get("mark", 1))))
-        lk = getattr(self.cache, "_lock", None)
+        self.cache_inner = VC.LRUCache(cache_size=self.case["cap"], mark_on_update=bool(self.case.get("mark", 1)))
+        self.cache = VC.SynchronizedCache(self.cache_inner)
+        lk = lock_of(self.cache)
         if isinstance(lk, sched.CoopLock):
             lk.log = _LockLog(self.rec)
-        self.cache._backing_cache = _GuardedBacking(self.cache._backing_cache, self.cache, self.rec)
+        inner = self.cache_inner
+        name = attr_name_where(self.cache, lambda v: v is inner, "backing cache of SynchronizedCache")
+        setattr(self.cache, name, _GuardedBacking(inner, self.cache, self.rec))
         # legal configuration "wrapper around wrapper": a component wraps the cache it is handed once more while
         # the owner keeps using the inner wrapper; the LRU cache must still be guarded by the INNER lock
         self.outer = VC.SynchronizedCache(self.cache) if self.case.get("nested") else None
@@ -466,7 +499,8 @@ def text_content(pairs, bad):
 
 class TextScenario(Scenario):
     files = [TF.__file__]
-    funcs = {"get_data": None, "find_system": None, "_update_data": 16}
+    funcs = sched.with_fallback({"get_data": None, "find_system": None, "_update_data": 16},
+                                [(TF.__file__, ["get_data", "find_system", "_update_data"])])
 
     def build(self):
         c = self.case
@@ -525,7 +559,7 @@ class TextScenario(Scenario):
         self.src = TF.get_instance({"file": self.path, "regular_expression": TEXT_RE,
                                     "system_id": {"source": "id"}, "variables": {"v": {"source": "v"}},
                                     "cache_enabled": bool(c["cache_enabled"]), "mismatch_action": "error"})
-        lk = getattr(self.src, "_lock", None)
+        lk = lock_of(self.src)
         if isinstance(lk, sched.CoopLock):
             lk.log = _LockLog(self.rec)
 
@@ -631,7 +665,7 @@ class _GuardedConn:
         self._rec = rec
 
     def _chk(self):
-        lk = getattr(self._store, "_lock", None)
+        lk = lock_of(self._store)
         if not (isinstance(lk, sched.CoopLock) and lk.owner is not None):
             self._rec.guard_violations += 1
 
@@ -654,10 +688,13 @@ class StoreScenario(Scenario):
         self.patch.set(SS, "threading", sched.shim())
         self.tmp = tempfile.mkdtemp(prefix="c19s")
         self.store = SS.DataStore(os.path.join(self.tmp, "db.sqlite"))
-        lk = getattr(self.store, "_lock", None)
+        lk = lock_of(self.store)
         if isinstance(lk, sched.CoopLock):
             lk.log = _LockLog(self.rec)
-        self.store._connection = _GuardedConn(self.store._connection, self.store, self.rec)
+        import sqlite3
+        self.conn_name = attr_name_where(self.store, lambda v: isinstance(v, sqlite3.Connection), "connection of DataStore")
+        self.real_conn = getattr(self.store, self.conn_name)
+        setattr(self.store, self.conn_name, _GuardedConn(self.real_conn, self.store, self.rec))
 
     def do(self, call):
         op = call[0]
@@ -703,7 +740,7 @@ class StoreScenario(Scenario):
 
     def cleanup(self):
         try:
-            self.store._connection._c.close()
+            self.real_conn.close()
         except Exception:
             pass
         super().cleanup()
@@ -748,7 +785,11 @@ class YamlScenario(Scenario):
     # with the Jinja engine (case["engine"] == "jinja") the data files are read by the template loader: every
     # line of its get_source / up-to-date callback is a yield point, so that a file can be replaced between any
     # two of the loader's file-system accesses (stat, open, stat)
-    funcs = {"compile_data": 9, "get_source": None, "up_to_date_with_cache": None, "up_to_date_without_cache": None}
+    funcs = sched.with_fallback({"compile_data": 9, "get_source": None, "up_to_date_with_cache": None,
+                                 "up_to_date_without_cache": None},
+                                [(JJ.__file__, ["get_source", "up_to_date_with_cache", "up_to_date_without_cache"])])
+    # (compile_data is not in a fallback group: tracing every function of yaml_target.py would put thousands of
+    # points into one call; if it is renamed the lock operations and file opens remain the yield points)
 
     def build(self):
         c = self.case
@@ -791,7 +832,14 @@ class YamlScenario(Scenario):
         if c.get("engine") == "jinja":
             cfg = {"root_dir": self.tmp, "cache_size": 8}          # the default engine, template cache enabled
         self.src = YT.YamlTargetSource(cfg)
-        lk = getattr(self.src._cache, "_lock", None)
+        # the item cache of the source: the attribute that is a SynchronizedCache (or anything holding a lock)
+        lk = None
+        for _, v in _attrs(self.src):
+            if isinstance(v, VC.SynchronizedCache) or (not isinstance(v, (str, bytes, int, float, bool, type(None)))
+                                                       and hasattr(v, "__dict__") and lock_of(v) is not None):
+                lk = lock_of(v)
+                if lk is not None:
+                    break
         if isinstance(lk, sched.CoopLock):
             lk.log = _LockLog(self.rec)
 
